@@ -138,6 +138,14 @@ func routeGen(kind string, sequential bool) func(r *rand.Rand, tier string) []sp
 						ID: 9000000 + uint32(len(out))*4 + uint32(k)})
 				}
 			}
+			if kind == "mux" && i%4 == 0 {
+				// connections that have been open for 6.5 s before they carry a payload larger than the session's
+				// flow-control window (1 MiB; the accept side answers with the same)
+				for k, side := range []string{"host", "plugin"} {
+					p.Items = append(p.Items, spec.RouteItem{Dir: side, AcceptFirst: k == 0, GapMs: 50, DialHoldMs: 6500, Len: 1 << 20,
+						ID: 9500000 + uint32(len(out))*4 + uint32(k)})
+				}
+			}
 			if kind == "mux" && i%4 == 3 {
 				// ids that were used before: an earlier pair on the id connected and finished; the judged pair's
 				// first half is issued 4 s after that pair's dial and its second half 2 s later, so that
@@ -378,6 +386,9 @@ func routeJudge(prop string) func(c spec.Case, evs []spec.Event, d *Death) CaseR
 			}
 			if it.LateReadMs > 0 {
 				res.Counters["one_way_transfers_read_late"]++
+			}
+			if it.DialHoldMs > 0 {
+				res.Counters["large_payloads_on_old_connections"]++
 			}
 			if it.ShortConnect {
 				res.Counters["short_connect_timeout_dials"]++
